@@ -325,6 +325,29 @@ def main():
         log("note: the parser overlay cannot be applied or is rejected by the Verus front end; verifying", pid, "(which does not depend on the parser) without it")
         sc.__exit__()
         sc, ov, r, fn_ranges, lt = verify_tree(keep=keep, extra=extra, vc_files=[f for f in engine.VC_ORDER if f != "parser.vc"])
+    # likewise a property that depends on necessity.rs only (C15) is not taken along when element.rs leaves the Verus subset
+    element_free = parser_free and not any(re.search(pat, "xml_schema_generator::element::x") or re.search(pat, "xml_schema_generator::vspec::tree::x") for pat in P["units"])
+    retry2 = False
+    if element_free and r is not None and r.front_end_error:
+        files = set()
+        for d in r.diags:
+            for sp in d.get("spans", []):
+                files.add(sp["file_name"])
+        retry2 = bool(files) and all(f in ("src/parser.rs", "src/element.rs") for f in files)
+    if element_free and r is None and ov.problems and all(p.startswith(("parser.rs:", "element.rs:")) for p in ov.problems):
+        retry2 = True
+    if retry2:
+        log("note: the overlay of element.rs / parser.rs cannot be applied or is rejected by the Verus front end; verifying", pid, "(which depends on necessity.rs only) without it")
+        sc.__exit__()
+        ex2 = []
+        k = 0
+        while k < len(extra):      # drop --verify-only-module for spec modules that are not part of the reduced crate
+            if extra[k] == "--verify-only-module" and extra[k + 1].startswith("vspec::") and extra[k + 1][7:] not in engine.NECESSITY_ONLY_VSPEC:
+                k += 2
+                continue
+            ex2.append(extra[k])
+            k += 1
+        sc, ov, r, fn_ranges, lt = verify_tree(keep=keep, extra=ex2, vc_files=["lib.vc", "necessity.vc"])
     try:
         return decide(pid, P, tier, seed, sc, ov, r, fn_ranges, lt, t0, replay)
     finally:
